@@ -38,6 +38,7 @@ structure Params where
   precertOnly : Bool := false
   table : List (Bool × Bool) := []       -- per class: (is precert, matcher selects)
   target : Option Nat := none            -- MatchSCTTimestamp: only this payload is selected
+  id : String := "?"
 
 structure DS where
   active : Bool := false
@@ -80,7 +81,8 @@ def parseParams (toks : List String) : Params :=
     cont := kvNat toks "cont" 0 == 1, nMatch := kvNat toks "match" 1, seed := kvNat toks "seed" 0,
     precertOnly := kvNat toks "preonly" 0 == 1,
     table := parseTable ((kv toks "table").getD ""),
-    target := (kv toks "target").bind String.toNat? }
+    target := (kv toks "target").bind String.toNat?,
+    id := (kv toks "id").getD "?" }
 
 def findWorker (ws : List (Option Rng)) (lo hi : Nat) : Option Nat :=
   let rec go : List (Option Rng) → Nat → Option Nat
@@ -103,12 +105,16 @@ def findInflight (ms : List (Option Entry)) (x : Entry) : Option Nat :=
     | none :: t, i => go t (i+1)
   go ms 0
 
+/-- The first event of a scenario that is not an execution step of the model is answered `bad:[id] …`; the rest of
+that scenario is answered `skip` (one disagreement per scenario; the model state is meaningless after it). -/
 def fail (d : DS) (msg : String) : DS × String :=
-  ({ d with bad := some (d.bad.getD msg) }, "bad:" ++ d.bad.getD msg)
+  match d.bad with
+  | some _ => (d, "skip")
+  | none => ({ d with bad := some msg }, s!"bad:[{d.p.id}] {msg}")
 
 def ok (d : DS) : DS × String :=
   match d.bad with
-  | some m => (d, "bad:" ++ m)
+  | some _ => (d, "skip")
   | none => (d, "ok")
 
 /-- Hands (and acceptances of a seen STH) are internal steps of the generator: they are not visible at the client
@@ -231,7 +237,7 @@ def handleEvent (d : DS) (toks : List String) : DS × String :=
       if d.awaiting.contains (s, k) then
         let d' := { d with awaiting := d.awaiting.erase (s, k) }
         match d'.bad with
-        | some m => (d', "bad:" ++ m)
+        | some _ => (d', "skip")
         | none => (d', toString (foldDigest ((batchOf env.src s k).map Prod.snd)))
       else fail d s!"cb {s} {k}: no such batch was fetched (or it was delivered twice)"
     | _, _ => fail d "bad cb line"
@@ -248,7 +254,7 @@ def handleEvent (d : DS) (toks : List String) : DS × String :=
   | "done" :: _ =>
     if !d.inited then
       match d.bad with
-      | some m => (d, "bad:" ++ m)
+      | some _ => (d, "skip")
       | none => (d, "0 err")
     else
       let st := d.st
@@ -261,7 +267,7 @@ def handleEvent (d : DS) (toks : List String) : DS × String :=
         | some st =>
           if !d.p.scan then
             match d.bad with
-            | some m => ({ d with st := st }, "bad:" ++ m)
+            | some _ => ({ d with st := st }, "skip")
             | none => ({ d with st := st }, s!"{st.delivered.length} nil")
           else
           match drainSilent env (st.queue.length + 2) st with
@@ -269,7 +275,7 @@ def handleEvent (d : DS) (toks : List String) : DS × String :=
           | .ok st' =>
             if !allIdle st'.matchers then fail d "done: a selected entry is still waiting for its callback"
             else match d.bad with
-              | some m => (d, "bad:" ++ m)
+              | some _ => (d, "skip")
               | none => ({ d with st := st' }, s!"{st'.called.length} {st'.end_}")
   | _ => fail d "unknown event"
 
@@ -279,7 +285,7 @@ def handle (d : DS) (line : String) : DS × String :=
     | rest => rest
   match toks with
   | "sc" :: rest => ({ active := true, p := parseParams rest }, "ok")
-  | _ => if d.active then handleEvent d toks else (d, "bad:no scenario")
+  | _ => if d.active then (if d.bad.isSome then (d, "skip") else handleEvent d toks) else (d, "bad:no scenario")
 
 def run (_ : List String) : IO UInt32 := do
   foldLines (← IO.getStdin) (← IO.getStdout) handle ({} : DS)
